@@ -287,7 +287,7 @@ func c17Draw(rt *rapid.T) *gen.Model {
 		// make tuplesets meaningful sometimes: restrictions on every relation that is used as a tupleset
 		return m
 	}
-	m := gen.GraphModel(rt, gen.GraphOpts{MultiThis: true, DupRestr: true, Hazards: true, CycleBoost: rapid.Bool().Draw(rt, "cb"), SmallModels: true, Names: true})
+	m := gen.GraphModel(rt, gen.GraphOpts{MultiThis: true, DupRestr: true, Hazards: true, CycleBoost: rapid.Bool().Draw(rt, "cb"), SmallModels: true, Names: true, Depth3: true})
 	if rapid.IntRange(0, 7).Draw(rt, "plantCycle") == 0 {
 		// plant a cycle of pure computed usersets over k >= 2 relations of one type
 		for ti := range m.Types {
@@ -339,6 +339,29 @@ func TestC17(t *testing.T) {
 		}
 		rec.Bulk(n, n, map[string]int64{"small-universe:models": n})
 		rec.Note("small universe: %d of %d models (stride %d)", n, total, stride)
+	}
+	// second bounded universe: nested operators of one kind (twins, cousins, mixed operand counts; wgNestedModel):
+	// every occurrence of an operator is a node of its own in the plain graph too.
+	// quick: every 64th model, thorough: every 4th.
+	{
+		total := wgTwinCount + wgCousinCount + wgMixedCount
+		stride := 64
+		if ev.Thorough() {
+			stride = 4
+		}
+		var n int64
+		for idx := ev.Shard() + int(ev.Seed()%int64(stride))*ev.Shards(); idx < total; idx += ev.Shards() * stride {
+			m := wgNestedModel(idx)
+			n++
+			in := c17Input{Model: m}
+			if msg := c17Check(in); msg != "" {
+				in.Text = m.String()
+				rec.Violation(in, msg)
+				t.Fatalf("nested-operator universe model #%d: %s\n%s", idx, msg, m.String())
+			}
+		}
+		rec.Bulk(n, n, map[string]int64{"nested-universe:models": n})
+		rec.Note("nested-operator universe: %d of %d models (stride %d)", n, total, stride)
 	}
 	rapid.Check(t, func(rt *rapid.T) {
 		m := c17Draw(rt)
